@@ -3,6 +3,8 @@ import Usual.C02.Parse
 
 * `d <hex>` — `Usual.C02.parse` with the four option sets (bits 0..3), `strtod` instantiated
   by `Usual.C02.strtodModel` (exact big-integer decimal → binary64);
+* `s <hex> …` — several documents on one context: the model is stateless per `json_parse` call
+  (the call resets the parser), so each document is parsed afresh; results grouped per option set;
 * `f <hex>` — `strtodModel` on a token: bits and bytes consumed. -/
 open Usual Usual.C02
 
@@ -10,12 +12,22 @@ def opD (doc : List UInt8) : String :=
   let r := fun (n : Nat) => dumpRes (parse strtodModel (Opts.ofBits n) doc)
   r 0 ++ " | " ++ r 1 ++ " | " ++ r 2 ++ " | " ++ r 3
 
+def opS (docs : List (List UInt8)) : String :=
+  let grp := fun (n : Nat) =>
+    " ; ".intercalate (docs.map fun d => dumpRes (parse strtodModel (Opts.ofBits n) d))
+  grp 0 ++ " | " ++ grp 1 ++ " | " ++ grp 2 ++ " | " ++ grp 3
+
 def stepLine (_ : Unit) (line : String) : Unit × String :=
   if line.trimAscii.toString == "#case" then ((), "#case") else
   match words line with
   | ["d", h] =>
     match parseHex h with
     | some doc => ((), opD doc)
+    | none => ((), "bad-op")
+  | "s" :: hs =>
+    if hs.isEmpty || hs.length > 62 then ((), "bad-op") else
+    match hs.mapM Usual.parseHex with
+    | some docs => ((), opS docs)
     | none => ((), "bad-op")
   | ["f", h] =>
     match parseHex h with
